@@ -16,6 +16,6 @@ Separate Extraction
   hparse_sps_er hparse_sps_br flat_hsps hnalu_sps expected_hsps hsps_valid
   derive_one derive_all d_num_delta d_num_used hrps_valid expected_himage_size
   hparse_pps_er hparse_pps_br flat_hpps hnalu_pps expected_hpps hpps_valid
-  hparse_slice_er hparse_slice_br flat_hslice hnalu_slice expected_hslice hslice_valid hslice_rps_guard
+  hparse_slice_er hparse_slice_br flat_hslice hnalu_slice expected_hslice hslice_valid
   hs_address_bits hs_poc_bits hs_num_pic_total_curr hs_l0 hs_l1 hs_lt_idx_bits hs_list_entry_bits
   hconf_observe hconf_decode_observe expected_hconf_observe spec_hvcc nalus_fit hconf_depths_fit.
